@@ -22,6 +22,9 @@ pub struct Canon {
     freed: Vec<(usize, usize, String)>,
     born_cnt: HashMap<String, usize>,
     pub unresolved_sites: Vec<String>,
+    co_ids: HashMap<String, String>,
+    ktails: HashMap<String, (String, usize)>,
+    kcount: HashMap<String, usize>,
 }
 
 fn ident_before_colon(l: &str) -> Option<String> {
@@ -77,7 +80,47 @@ impl Canon {
             freed: vec![],
             born_cnt: HashMap::new(),
             unresolved_sites: vec![],
+            co_ids: HashMap::new(),
+            ktails: HashMap::new(),
+            kcount: HashMap::new(),
         }
+    }
+
+    /// canonical actor name: coroutines `c:<name>` (or `c#<k>` when unnamed, numbered by first appearance),
+    /// their kernel tails `k:<co>#<n>` (n-th kernel tail of that coroutine in this trace), threads as they are
+    pub fn actor(&mut self, raw: &str) -> String {
+        if !raw.contains('|') {
+            return raw.to_string();
+        }
+        let (is_k, rest) = match raw.strip_prefix("k:") {
+            Some(r) => (true, r),
+            None => (false, raw),
+        };
+        let (core, seq) = match rest.rsplit_once('#') {
+            Some((c, q)) if is_k => (c, q),
+            _ => (rest, ""),
+        };
+        let n = self.co_ids.len();
+        let co = self
+            .co_ids
+            .entry(core.to_string())
+            .or_insert_with(|| {
+                let name = core.split('|').next().unwrap_or("?");
+                if name == "?" { format!("c#{n}") } else { format!("c:{name}") }
+            })
+            .clone();
+        if !is_k {
+            return co;
+        }
+        if let Some((c, i)) = self.ktails.get(raw) {
+            return format!("k:{c}#{i}");
+        }
+        let _ = seq;
+        let cnt = self.kcount.entry(co.clone()).or_insert(0);
+        *cnt += 1;
+        let i = *cnt;
+        self.ktails.insert(raw.to_string(), (co.clone(), i));
+        format!("k:{co}#{i}")
     }
 
     fn load(&mut self, file: &str) -> &(String, Vec<String>) {
@@ -198,7 +241,10 @@ impl Canon {
         format!("{}", v as i64)
     }
 
-    pub fn line(&mut self, r: &Raw) -> Option<String> {
+    pub fn line(&mut self, r0: &Raw) -> Option<String> {
+        let mut rr = r0.clone();
+        rr.actor = self.actor(&r0.actor);
+        let r = &rr;
         const ORD: [&str; 6] = ["-", "Relaxed", "Release", "Acquire", "AcqRel", "SeqCst"];
         match r.kind {
             "note" => {
@@ -237,11 +283,13 @@ impl Canon {
                     return Some(format!("{} note - free {} 0 0 2 -", r.actor, tok));
                 }
                 let rest: Vec<&str> = r.op.split_whitespace().collect();
+                let what = rest.get(1).copied().unwrap_or("0");
+                let what = if what.contains('|') { self.actor(what) } else { what.to_string() };
                 Some(format!(
                     "{} note - {} {} 0 0 2 -",
                     r.actor,
                     rest.first().unwrap_or(&"?"),
-                    rest.get(1).unwrap_or(&"0")
+                    what
                 ))
             }
             "call" | "ret" => Some(format!(
